@@ -1,3 +1,51 @@
+import json, os
+
+def _api_distribution(pid, tier):
+    """types x presence patterns x empties of stream (ii), measured from the run's api_stats.txt
+    (one line per case: type, plan, #Some(empty) collections, #repeated inserts, #bytes, result)."""
+    root = os.path.dirname(os.path.dirname(os.path.abspath(__file__)))
+    path = os.path.join(root, "run", pid, tier, "gen", "api_stats.txt")
+    d = {"types": 0, "cases": 0, "with_some_empty_collection": 0, "with_repeated_insert_or_duplicate_add": 0,
+         "distinct_plans": 0, "per_type": {}, "empties_histogram": {}, "largest_bytes": 0}
+    if not os.path.exists(path):
+        return d
+    plans = set()
+    for line in open(path):
+        t = line.split()
+        if len(t) < 6:
+            continue
+        name, plan, emp, dup, nbytes, res = t[0], t[1], int(t[2]), int(t[3]), int(t[4]), t[5]
+        pt = d["per_type"].setdefault(name, {"cases": 0, "plans": 0, "some_empty": 0, "repeats": 0, "not_ok": 0})
+        pt["cases"] += 1; pt["some_empty"] += 1 if emp else 0; pt["repeats"] += 1 if dup else 0
+        pt["not_ok"] += 0 if res == "ok" else 1
+        if (name, plan) not in plans:
+            plans.add((name, plan)); pt["plans"] += 1
+        d["cases"] += 1
+        d["with_some_empty_collection"] += 1 if emp else 0
+        d["with_repeated_insert_or_duplicate_add"] += 1 if dup else 0
+        k = str(min(emp, 9)); d["empties_histogram"][k] = d["empties_histogram"].get(k, 0) + 1
+        d["largest_bytes"] = max(d["largest_bytes"], nbytes)
+    d["types"] = len(d["per_type"]); d["distinct_plans"] = len(plans)
+    return d
+
+# public types with to_bytes/from_bytes that have no schema (not covered by either stream)
+UNMODELLED = ["FixedTransaction", "FixedBlock", "FixedVersionedBlock", "FixedTransactionBody", "FixedTransactionBodies", "FixedTxWitnessesSet"
+              " (original-bytes carriers: see C04)",
+              "Address / ByronAddress / Pointer (own byte format: see C11)", "hash, key and signature types (raw bytes: see C12)"]
+
+def _custom(pid, cfg, tier, seed):
+    import verif_lib
+    rc = verif_lib.check(pid, cfg, tier, seed)
+    ev_path = os.path.join(verif_lib.EVID, "%s.json" % pid)
+    try:
+        ev = json.load(open(ev_path))
+        ev["coverage"]["api_stream_distribution"] = _api_distribution(pid, tier)
+        ev["coverage"]["unmodelled_types"] = UNMODELLED
+        json.dump(ev, open(ev_path, "w"), indent=1)
+    except Exception as e:          # evidence stays as written by the library
+        print("note: api distribution not added to the evidence: %s" % e)
+    return rc
+
 def _nontrivial(rec):
     # distinct accepted encodings of more than a bare head (>= 8 bytes)
     return rec["model"].startswith("ok ") and len(rec["case"].split(" ")[-1]) >= 16
@@ -5,19 +53,28 @@ def _nontrivial(rec):
 CFG = {
     "level": "proof",
     "driver_gen": True,
+    "custom_check": _custom,
     "level_text": "One generic Coq theorem (closed under the global context): for EVERY well-formed schema and EVERY schema-valid value, "
                   "decoding the encoding (followed by arbitrary bytes) returns exactly that value and the rest, hence re-encoding is "
-                  "identical; instantiated on the wire shapes of ~70 ledger types (transaction, body, outputs, value, 19 certificate "
+                  "identical; instantiated on the wire shapes of ~120 ledger types (transaction, body, outputs, value, 19 certificate "
                   "kinds, governance, parameter updates, witness set, native scripts / Plutus data / metadata unrolled to EVERY depth, "
                   "auxiliary data, header, block), whose well-formedness is proved for all depths. Hex entry points: unhex (hex bs) = bs. "
                   "The schemas are tied to the Rust (de)serializers by an exact differential run: schema-walk generated values "
                   "(every variant, presence subsets, width classes, empty/large collections) are encoded by the model and must be "
-                  "decoded and re-encoded byte-identically by the library, with the library's own from_hex/to_hex/PartialEq identities checked.",
+                  "decoded and re-encoded byte-identically by the library, with the library's own from_hex/to_hex/PartialEq identities checked. "
+                  "Values built through the public API that no decoder returns (an optional collection present but empty) are covered by "
+                  "C01_api_roundtrip: decoding yields the normalised value (such fields absent), which re-encodes to the same bytes, and the "
+                  "normalisation is the identity on everything else; maps backed by a Vec (Mint, Redeemers, PlutusMap) may repeat keys. "
+                  "Second differential stream in the other direction: ~125 types are built through constructors / setters / add / insert "
+                  "(every presence subset, each optional collection absent / Some(empty) / non-empty, repeated and unsorted inserts, duplicate adds, "
+                  "every new_* constructor), the library must decode its own bytes to an equal value and re-encode identically, and the model "
+                  "decoder must accept exactly these bytes and re-encode them identically.",
     "level_note": "Trusted: Coq kernel; the schemas in Ledger/Schemas.v as a description of the Rust types (tied by correspondence on the "
                   "generated cases only); the model decoder is the Rust decoder restricted to writer-produced encodings (any head width, "
                   "writer key order, definite containers except Plutus lists/long byte strings); extraction (ExtrOcamlBasic) and the OCaml/Rust glue. "
-                  "No axioms. Types without a schema (listed in DESIGN.md) are not covered; wasm JsError paths are not exercised.",
-    "theorems": ["C01_schema_roundtrip", "C01_roundtrip", "C01_reencode", "C01_hex", "C01_loop_fuel"],
+                  "No axioms. Types without a schema (coverage.unmodelled_types in the evidence) are not covered; wasm JsError paths are not exercised.",
+    "theorems": ["C01_schema_roundtrip", "C01_roundtrip", "C01_reencode", "C01_api_roundtrip", "C01_api_reencode",
+                 "C01_norm_only_empties", "C01_hex", "C01_loop_fuel"],
     "allowed_axioms": [],
     "compare": "exact",
     "nontrivial": _nontrivial,
@@ -25,7 +82,12 @@ CFG = {
     "rule": "stream (i): for each of the ~70 types the extracted model walks the schema with a seeded PRNG (sizes 0..8, every variant, "
             "optional-field subsets incl. none/all, integer width classes 0/23/24/255/256/65535/65536/2^32-1/2^32/2^63/2^64-1, collections of "
             "0/1/2/3/24/25 items, nesting depth <= 3, chunked byte strings at 64/65/128) and emits enc(v); the harness runs "
-            "T::from_bytes/to_bytes/to_hex/from_hex/PartialEq; stream (ii): values built through the public API by the harness; "
+            "T::from_bytes/to_bytes/to_hex/from_hex/PartialEq; stream (ii): case `api <Type> <plan> <seed>` - the harness builds the value through "
+            "the public API (plan = the top-level builder's decisions: per optional field absent/present, per optional collection "
+            "absent/non-empty/Some(empty), variant index, fill pattern with repeats; enumerated exhaustively when <= 160 combinations, else every "
+            "presence subset for <= 10 slots + all-absent/all-present/all-empty + one-hot + one-cold + random; seed = every nested choice), "
+            "observes to_bytes / from_bytes / re-encoding / PartialEq / hex entry points; the Coq-extracted api_model_accepts decodes the "
+            "library's bytes with the model and api_holds evaluates the round-trip statement (distribution in coverage.api_stream_distribution); "
             "non-trivial = distinct accepted encodings of >= 8 bytes",
     "trusted_base": [
         "Ledger/Schemas.v: wire shapes read from rust/src/serialization (model, not spec)",
